@@ -40,18 +40,49 @@ var c25Near = []string{
 	"//query/configmetadata", "/query//configmetadata", "/query/trace/a/b", "/query/./configmetadata",
 	"/1/../query/configmetadata", "/query/rules/json/prod/extra", "/query/allrules/json/", "/query/trace/ab%2Fcd",
 }
+var c25Methods = []string{"GET", "HEAD", "POST", "PUT", "DELETE", "OPTIONS", "PATCH", "FOO", "get", "CONNECT", "TRACE"}
 var c25Toks = []string{"absent", "empty", "exact", "exact", "exact", "prefix", "extended", "upper", "lower", "padleft", "padright", "other"}
 var c25Required = []string{"", "s3cr3t-Tok3n", "s3cr3t-Tok3n", "s3cr3t-Tok3n", "T", "tok en"}
 
+// c25Sweep enumerates documented endpoints x methods x token variants x configured/unconfigured.
+func c25Sweep(i int) c25Input {
+	eps := []string{"/query/trace/abc123", "/query/trace/bb11", "/query/rules/json/prod", "/query/rules/yaml/dataset1",
+		"/query/allrules/json", "/query/allrules/toml", "/query/configmetadata"}
+	toks := []string{"absent", "empty", "exact", "prefix", "upper", "other"}
+	in := c25Input{Router: "incoming"}
+	in.Path = eps[i%len(eps)]
+	i /= len(eps)
+	in.Method = c25Methods[i%len(c25Methods)]
+	i /= len(c25Methods)
+	in.Tok = toks[i%len(toks)]
+	i /= len(toks)
+	in.Required = []string{"s3cr3t-Tok3n", ""}[i%2]
+	i /= 2
+	if i%2 == 1 {
+		in.Router = "peer"
+	}
+	return in
+}
+
+const c25SweepSize = 7 * 11 * 6 * 2 * 2
+
 func c25Gen(r *rand.Rand, tier string, i int) any {
+	// the first third of a quick run (all of it, twice over, in a thorough run) is the systematic sweep
+	if (tier == "thorough" && i < 2*c25SweepSize) || (tier != "thorough" && i%3 == 0) {
+		if tier == "thorough" {
+			return c25Sweep(i % c25SweepSize)
+		}
+		return c25Sweep(r.Intn(c25SweepSize))
+	}
 	in := c25Input{Router: "incoming", Method: "GET"}
 	if r.Intn(6) == 0 {
 		in.Router = "peer"
 	}
 	in.Required = c25Required[r.Intn(len(c25Required))]
 	in.Tok = c25Toks[r.Intn(len(c25Toks))]
-	if r.Intn(6) == 0 {
-		in.Method = []string{"POST", "HEAD", "PUT", "DELETE", "get"}[r.Intn(5)]
+	// every query path is tried with every method: 40% GET, the rest uniform over the others
+	if r.Intn(10) < 6 {
+		in.Method = c25Methods[1+r.Intn(len(c25Methods)-1)]
 	}
 	if r.Intn(5) == 0 {
 		in.Path = c25Near[r.Intn(len(c25Near))]
